@@ -945,11 +945,19 @@ func (ctx *Context) evaluate() {
 			diceStates[diceStateIndex].highNum, _ = v.ReadInt()
 		case typeDiceSetMin:
 			v := stackPop()
-			i, _ := v.ReadInt()
+			i, ok := v.ReadInt()
+			if !ok {
+				ctx.Error = errors.New("骰子下限(min)必须为整数")
+				return
+			}
 			diceStates[diceStateIndex].min = &i
 		case typeDiceSetMax:
 			v := stackPop()
-			i, _ := v.ReadInt()
+			i, ok := v.ReadInt()
+			if !ok {
+				ctx.Error = errors.New("骰子上限(max)必须为整数")
+				return
+			}
 			diceStates[diceStateIndex].max = &i
 		case typeDetailMark:
 			span := code.Value.(BufferSpan)
